@@ -222,6 +222,9 @@ mod simd;
 pub mod span;
 mod writer;
 
+#[cfg(rten_verif)]
+pub mod verif;
+
 /// Target-specific [`Isa`] implementations.
 ///
 /// Most code using this library will not need to use these types. Instead the
